@@ -57,38 +57,41 @@ theorem all_opens_via_hook (f : Flags) (s : St) (hs : Inv f s) (ops : List IoOp)
   subst heq
   simpa [Effect.viaHook] using this
 
-/-- Each attempt ends the run with an error — every redirected form and system(): a `>`/`>>`/`|`/`getline <`/`| getline`
-on a name that is not already an open stream (and is not "-"), or any system(), under the flag that forbids it, yields
-exactly one effect, the error, and the run ends there whatever follows. -/
-theorem attempt_is_error_partial (f : Flags) (s : St) (op : IoOp) (rest : List IoOp) (e : Err)
+/-- A denied redirected form or system(): a `>`/`>>`/`|`/`getline <`/`| getline` on a name that is not already an open stream
+(and is not "-"), or any system(), under the flag that forbids it, yields exactly one effect, the error, and the run ends
+there whatever follows. -/
+theorem attempt_ends_run (f : Flags) (s : St) (op : IoOp) (rest : List IoOp) (e : Err)
     (h : denied f s op = some e) : trace f s (op :: rest) = [[.error e]] :=
   denied_trace f s op rest e h
 
-/-- … and an operand denied by NoFileReads ends the run when the pattern-action loop reaches it. -/
+/-- An operand denied by NoFileReads ends the run when the pattern-action loop reaches it … -/
 theorem operand_attempt_is_error (f : Flags) (h : f.noReads = true) (s : St) (hc : s.cur = 0)
     (ha : firstRegular s.args = true) (rest : List IoOp) : trace f s (.mainLoop :: rest) = [[.error .noFileReads]] := by
   simp [trace, mainLoop_operand_denied f h s hc ha, Effect.isError]
 
-/-- The full statement also covers an operand reached by un-redirected getline. -/
+/-- … and when an un-redirected getline reaches it (the repaired G12-1: `errNoFileReads` is propagated). -/
+theorem getline_operand_attempt_is_error (f : Flags) (h : f.noReads = true) (s : St) (hc : s.cur = 0)
+    (ha : firstRegular s.args = true) (rest : List IoOp) : trace f s (.getline :: rest) = [[.error .noFileReads]] := by
+  simp [trace, getline_operand_denied f h s hc ha, Effect.isError]
+
+/-- The clause at full strength: every attempt — redirected form, system(), operand reached by the pattern-action loop or by
+un-redirected getline — is an error. -/
 def AttemptIsError : Prop :=
   ∀ (f : Flags) (s : St) (op : IoOp),
     ((denied f s op).isSome ∨ ((op = .getline ∨ op = .mainLoop) ∧ f.noReads = true ∧ s.cur = 0 ∧ firstRegular s.args = true)) →
     (step f s op).1.any Effect.isError = true
 
+theorem attempt_is_error : AttemptIsError := by
+  intro f s op h
+  rcases h with h | ⟨hop, hr, hc, ha⟩
+  · obtain ⟨e, he⟩ := Option.isSome_iff_exists.mp h
+    simp [denied_step f s op e he, Effect.isError]
+  · rcases hop with rfl | rfl
+    · simp [getline_operand_denied f hr s hc ha, Effect.isError]
+    · simp [mainLoop_operand_denied f hr s hc ha, Effect.isError]
+
 def g121Flags : Flags := { noExec := false, noWrites := false, noReads := true, hook := true }
-def g121State : St := St.init [[105]] [[105]] 2      -- one operand "i", which exists
-
-/-- It is false of the code as it is (finding G12-1): the refused operand makes getline return -1 and the run goes on. -/
-theorem attempt_is_error_fails : ¬ AttemptIsError := by
-  intro h
-  have := h g121Flags g121State .getline (Or.inr ⟨Or.inl rfl, rfl, rfl, by decide⟩)
-  revert this
-  decide
-
-/-- what happens instead, for every state: the only effect is the soft failure, nothing is opened -/
-theorem getline_operand_soft (f : Flags) (h : f.noReads = true) (s : St) (hc : s.cur = 0)
-    (ha : firstRegular s.args = true) : (step f s .getline).1 = [.soft] :=
-  getline_operand_denied f h s hc ha
+def g121State : St := St.init [[105]] [[105]] 2      -- one operand "i", which exists (the former G12-1 witness)
 
 /-! ### the regenerated inventory of OS-reaching call sites of package interp -/
 
@@ -114,6 +117,7 @@ example : effects { noExec := true, noWrites := false, noReads := true, hook := 
     [.open [111] .wrTrunc .configured true, .useStream [111] .outFile, .useStream [111] .outFile, .closeStream [111] .outFile] := by decide
 example : firstRegular g121State.args = true ∧ g121State.cur = 0 := by decide
 example : (step g121Flags g121State .mainLoop).1 = [.error .noFileReads] := by decide
+example : (step g121Flags g121State .getline).1 = [.error .noFileReads] := by decide
 example : (Generated.C12IoSites.sites.length, Generated.C12IoSites.imports.length) = (14, 26) := by decide
 
 end GoawkModel.C12.Props
